@@ -37,6 +37,7 @@ EXPLANATION = (
     "graphs (the DFS functions are decided structurally, not by running them), behaviour when a shared-reward names an "
     "agent that does not exist."
 )
+TECHNIQUE = "static: CFG loop/exactly-once analysis of reward accumulation, structural check of DFS post-order and cycle detection, sticky-edge must-pass"
 ASSUMPTIONS = [
     "pydantic copies the mutable field default of RewardFunction.reward_components per instance",
     "PrimaiteGame objects used for episodes are built by PrimaiteGame.from_config only",
